@@ -93,3 +93,88 @@ func ZZ_C16_ReplicaResize() {
 	}
 	_ = zzfs.Cur
 }
+
+// C16 / C17 (a request queued behind an operation that replaces the open replica): while
+// Reload or Revert holds the server lock - they build a new Replica object and swap it in
+// - a second request arrives and waits for the lock.  When it runs it must act on the
+// replica that is live then: a grow that reports success is visible on the live replica
+// (size, block map, the added range accepts a write) and survives reopen; a snapshot,
+// a checkpoint or a write that reports success is found on the live replica.
+func ZZ_C16_QueuedBehindSwap() {
+	fs := zzInstallFS()
+	ActionChannel = make(chan string, 5)
+	r := zzPreState(fs, 1)
+	s := &Server{Dir: zzDir, defaultSectorSize: 4096, MonitorChannel: make(chan struct{}), r: r}
+	first := zzConcretize(zzChoice("first", 2))  // Reload, Revert
+	second := zzConcretize(zzChoice("second", 4)) // Resize, Snapshot, SetCheckpoint, WriteAt
+	gate := make(chan struct{})
+	done := make(chan error, 1)
+	buf := make([]byte, 4096)
+	buf[9] = 0x5a
+	go func() {
+		<-gate
+		switch second {
+		case 0:
+			done <- s.Resize("16K")
+		case 1:
+			done <- s.Snapshot("q", true, "t")
+		case 2:
+			done <- s.SetCheckpoint("volume-snap-a.img")
+		default:
+			_, err := s.WriteAt(buf, 4096)
+			done <- err
+		}
+	}()
+	opened := false
+	zzfs.OnStep = func() {
+		if !opened && zzLockDepth(&s.RWMutex) > 0 {
+			opened = true
+			close(gate)
+			zzYield()
+		}
+	}
+	var ferr error
+	if first == 0 {
+		ferr = s.Reload()
+	} else {
+		ferr = s.Revert("volume-snap-a.img", "t")
+	}
+	zzfs.OnStep = nil
+	if !opened {
+		close(gate)
+	}
+	zzSettle()
+	zzAssert(ferr == nil, "C16.queued.first-operation-failed")
+	zzAssert(len(done) == 1, "C16.queued.second-request-never-served")
+	if len(done) != 1 || s.r == nil {
+		return
+	}
+	serr := <-done
+	live := s.r
+	live.mode = types.RW
+	if serr != nil {
+		zzReach("C16.queued.second-refused")
+		return
+	}
+	zzReach("C16.queued.second-ok")
+	switch second {
+	case 0:
+		zzAssert(live.info.Size == 2*zzSize, "C16.queued.grow-reported-done-but-live-replica-keeps-the-old-size")
+		zzAssert(int64(len(live.volume.location)) == 2*zzSize/4096, "C16.queued.grow-reported-done-but-live-block-map-not-grown")
+		_, werr := live.WriteAt(buf, zzSize)
+		zzAssert(werr == nil, "C16.queued.write-to-added-range-refused")
+		fs.Revive()
+		info, ierr := ReadInfo(zzDir)
+		zzAssert(ierr == nil && info.Size == 2*zzSize && info.Head == live.info.Head, "C16.queued.volume-metadata-disagrees-with-live-replica-after-grow")
+	case 1:
+		_, ok := live.diskData["volume-snap-q.img"]
+		zzAssert(ok && live.info.Parent == "volume-snap-q.img", "C16.queued.snapshot-reported-done-but-not-in-the-live-chain")
+	case 2:
+		zzAssert(live.info.Checkpoint == "volume-snap-a.img", "C16.queued.checkpoint-reported-set-but-not-on-the-live-replica")
+	default:
+		rb := make([]byte, 4096)
+		_, rerr := live.ReadAt(rb, 4096)
+		zzAssert(rerr == nil && rb[9] == 0x5a, "C16.queued.acknowledged-write-not-readable-on-the-live-replica")
+	}
+	zzAssert(zzLockDepth(&s.RWMutex) == 0, "C16.queued.lock-left-held")
+}
